@@ -32,6 +32,9 @@ var (
 	PathAttrs = []string{"camliPath:x", "camliPath:y"}
 )
 
+// DanglingRef is a well-formed ref of a blob that is in no generated world.
+var DanglingRef = blob.RefFromString("vsearchworld: a blob nobody uploaded").String()
+
 // DatePool: instants claims are dated with. Whole seconds, sub-second (differing
 // digit counts), pre-1970. All lie in the past; none is the Unix epoch itself.
 var DatePool = func() []time.Time {
@@ -225,7 +228,7 @@ func has(vals []string, v string) bool {
 // GenClaims draws 1..max claims for p, in date order, each valid in the state
 // reached so far: no empty values, no add of a value already present, del only
 // of present values/attributes; camliContent and dateCreated are only ever set
-// (at most one of the two per permanode); edge values always name indexed blobs.
+// (at most one of the two per permanode); edge values name indexed blobs, are not refs at all, or (camliMember only) are DanglingRef.
 func GenClaims(t *rapid.T, w *World, p *Perm, max int) {
 	n := rapid.IntRange(1, max).Draw(t, "nClaims")
 	// n distinct dates from the pool, ascending
@@ -241,7 +244,17 @@ func GenClaims(t *rapid.T, w *World, p *Perm, max int) {
 		var kind, attr, val string
 		for tries := 0; ; tries++ {
 			kind, attr, val = "", "", ""
-			switch rapid.IntRange(0, 13).Draw(t, "claimClass") {
+			switch rapid.IntRange(0, 15).Draw(t, "claimClass") {
+			case 14, 15: // a location, one coordinate per claim (the map sort spreads results that have one)
+				kind = "set-attribute"
+				switch {
+				case len(state["latitude"]) == 0:
+					attr, val = "latitude", rapid.SampledFrom([]string{"10.5", "-33.25", "48"}).Draw(t, "lat")
+				case len(state["longitude"]) == 0:
+					attr, val = "longitude", rapid.SampledFrom([]string{"20.5", "151", "2.25"}).Draw(t, "long")
+				default:
+					attr, val = "latitude", rapid.SampledFrom([]string{"10.5", "-33.25", "48", "11"}).Draw(t, "lat2")
+				}
 			case 0, 1: // node type
 				kind, attr, val = "set-attribute", "camliNodeType", rapid.SampledFrom(NodeTypes).Draw(t, "nodeType")
 			case 2, 3: // tag add
@@ -264,6 +277,9 @@ func GenClaims(t *rapid.T, w *World, p *Perm, max int) {
 			case 6, 7: // member edge
 				attr, val = "camliMember", anyRef(t, w, p)
 				kind = "add-attribute"
+				if len(state[attr]) > 0 && rapid.IntRange(0, 2).Draw(t, "dropMember") == 0 {
+					val = rapid.SampledFrom(state[attr]).Draw(t, "memberToDrop") // an edge that existed once
+				}
 				if has(state[attr], val) {
 					kind = "del-attribute"
 				}
@@ -299,6 +315,9 @@ func GenClaims(t *rapid.T, w *World, p *Perm, max int) {
 				kind, attr, val = "del-attribute", rapid.SampledFrom(present).Draw(t, "delAttr"), ""
 			case 13: // tag referencing a ref-like string that is not a blob, or a plain string as member
 				kind, attr, val = "add-attribute", "camliMember", "not-a-ref"
+				if rapid.IntRange(0, 2).Draw(t, "dangling") == 0 {
+					val = DanglingRef // a member this server never received
+				}
 				if has(state[attr], val) {
 					kind = "del-attribute"
 				}
